@@ -378,6 +378,19 @@ def mon_c04(script, res):
 KNOWN = {}     # id -> count, filled by the monitors on signature inputs
 
 
+PATHS_FOUND = (None, '', '/sim/bin', '/nowhere:/bin', '/bin')
+
+
+def _eff_cmd(script, c):
+    """Command kind as the monitors see it: the slash-less command (6) is searched in the daemon's $PATH - an unset or
+    empty $PATH means the default /bin:/usr/bin:/usr/local/bin - and is 'ok' (0) when a directory of it has it,
+    'missing' (1) otherwise."""
+    k = c.get('cmd', 0)
+    if k != 6:
+        return k
+    return 0 if script.get('path') in PATHS_FOUND else 1
+
+
 def _known(fid):
     KNOWN[fid] = KNOWN.get(fid, 0) + 1
 
@@ -504,17 +517,17 @@ def mon_c13(script, res):
             c_ = script['procs'][r['i']]
             if code == 500:
                 return '%sProcess(p%d) was answered with an HTTP error instead of a value or a fault' % (r['kind'], r['i'])
-            if r['kind'] == 'start' and not r.get('low') and c_.get('cmd', 0) in (0, 5) and code in (20, 21):
+            if r['kind'] == 'start' and not r.get('low') and _eff_cmd(script, c_) in (0, 5) and code in (20, 21):
                 return ('startProcess(p%d) answered fault %d (no such file / not executable) for a command that exists and can '
                         'be executed%s' % (r['i'], code, ' (a relative path with a slash is used as given)' if c_.get('cmd') == 5 else ''))
             if r['kind'] in ('start', 'stop') and r['arg'] == 0 and r.get('late'):
                 return ('%sProcess(p%d, wait=false) was not answered at once: the answer came after the main loop had run '
                         'again, as if wait were true' % (r['kind'], r['i']))
-            if r['kind'] == 'start' and not r.get('low') and c_.get('cmd', 0) in (1, 2, 3, 4):
-                want = 20 if c_['cmd'] == 1 else 21
+            if r['kind'] == 'start' and not r.get('low') and _eff_cmd(script, c_) in (1, 2, 3, 4):
+                want = 20 if _eff_cmd(script, c_) == 1 else 21
                 if code != want or r['forked']:
                     return ('startProcess(p%d): the command cannot be run (%s) - expected fault %d and no fork, got %s%s'
-                            % (r['i'], {1: 'missing', 2: 'not executable', 3: 'no permission', 4: 'a directory'}[c_['cmd']],
+                            % (r['i'], {1: 'missing', 2: 'not executable', 3: 'no permission', 4: 'a directory'}[_eff_cmd(script, c_)],
                                want, code, ' after forking a child' if r['forked'] else ''))
             if r['kind'] == 'start':
                 if code == 0:
@@ -1087,6 +1100,12 @@ def multicall_script(rng):
     for c in s['procs']:
         if rng.random() < 0.7:
             c['cmd'] = 0
+    if rng.random() < 0.4:
+        # a slash-less command, searched in the daemon's $PATH (unset / empty: the default path)
+        s['path'] = rng.choice([None, '', '', '/sim/bin', '/nowhere:/bin', '/nowhere', '/bin'])
+        for c in s['procs']:
+            if rng.random() < 0.7:
+                c['cmd'] = 6
     nreq = 0
     for op in s['ops']:
         if rng.random() < 0.3:
